@@ -102,6 +102,7 @@ package logql
 //@ func (*parser).parseBinOp
 //@   requires p.pos >= 0 && minPrecedence >= 0
 //@   ensures[cursor-never-moves-back] p.pos >= old(p.pos)
+//@   ensures[consumes-the-pending-operator] ret1 == nil && old(nextPrec(p)) >= minPrecedence ==> p.pos > old(p.pos)
 //@   requires[L-first] nextPrec(p) < minPrecedence || nextPrec(p) < topPrec(left)
 //@   requires[min-le-left] minPrecedence <= topPrec(left)
 //@   modifies p.pos
@@ -115,7 +116,7 @@ package logql
 //@   loop 0 invariant nextPrec(p) < minPrecedence || nextPrec(p) < topPrec(left)
 //@   loop 0 invariant minPrecedence <= topPrec(left)
 //@   loop 0 invariant left == old(left) || (topPrec(left) != 100 && topPrec(left) >= minPrecedence)
-//@   loop 1 invariant p.pos >= 0 && p.pos >= old(p.pos)
+//@   loop 1 invariant p.pos >= 0 && p.pos >= old(p.pos) && p.pos > outer(p.pos)
 //@   loop 1 invariant topPrec(right) >= op.Precedence()
 //@   loop 1 invariant nextPrec(p) < topPrec(right)
 //@   loop 1 invariant op.IsLogic() ==> !typeis[*LiteralExpr](right)
@@ -123,6 +124,8 @@ package logql
 //@   assert@alloc(BinOpExpr,0)[R-higher] topPrec(right) != op.Precedence() ==> topPrec(right) > op.Precedence()
 //@   assert@alloc(BinOpExpr,0)[R-equal]  topPrec(right) == op.Precedence() ==> op == OpPow
 //@   assert@alloc(BinOpExpr,0)[logic]    op.IsLogic() ==> !typeis[*LiteralExpr](left) && !typeis[*LiteralExpr](right)
+//@   loop 0 decreases remaining(p)
+//@   loop 1 decreases remaining(p)
 
 //@ func (BinOp).IsLogic
 //@   inline
@@ -229,6 +232,7 @@ package logql
 //@   loop 0 body_ensures[template-sets-target] tpl_called ==> len(lf.Values) == head(len(lf.Values))+1 && lf.Values[len(lf.Values)-1].Label == Label(dst_r0) && lf.Values[len(lf.Values)-1].Template == tpl_r0
 //@   loop 0 exit_ensures[template-sets-target] tpl_called && tpl_r1 == nil ==> len(lf.Values) == head(len(lf.Values))+1 && lf.Values[len(lf.Values)-1].Label == Label(dst_r0) && lf.Values[len(lf.Values)-1].Template == tpl_r0
 //@   loop 0 body_ensures[target-recorded-once] dst_called && !head(has(labels, Label(dst_r0))) && has(labels, Label(dst_r0))
+//@   loop 0 decreases remaining(p)
 
 // ---- C05: query text is parsed into the structure it denotes.
 //
@@ -239,6 +243,8 @@ package logql
 //@ spec func tokType(p *parser, i int) lexer.TokenType { return ite(0 <= i && i < len(p.tokens), p.tokens[i].Type, lexer.EOF) }
 //@ spec func tokText(p *parser, i int) string { return p.tokens[i].Text }
 //@ spec func step(t lexer.TokenType) int { return ite(t == lexer.EOF, 0, 1) }
+// Tokens left in front of the cursor: the measure of every parser loop (C17: no query makes the parser hang).
+//@ spec func remaining(p *parser) int { return ite(len(p.tokens) > p.pos, len(p.tokens) - p.pos, 0) }
 
 //@ func (*parser).unread
 //@   requires p.pos >= 0
@@ -382,6 +388,7 @@ package logql
 //@       ret0.Label == Label(tokText(p, old(p.pos)+3)) && tokType(p, old(p.pos)+4) == lexer.CloseParen
 //@   loop 0 modifies p.pos, ue.Filters, ue.Filters[*]
 //@   loop 0 invariant p.pos >= 0 && p.pos >= old(p.pos) && ue != nil && fresh(ue) && fresh(ue.Filters)
+//@   loop 0 decreases remaining(p)
 
 // A parenthesised, comma-separated, possibly empty list of labels: every label in order, nothing else.
 //@ func (*parser).parseLabels
@@ -397,6 +404,7 @@ package logql
 //@   loop 0 invariant p.pos >= 0 && p.pos == old(p.pos) + 1 + 2*len(labels) && tokType(p, old(p.pos)+1) != lexer.CloseParen && fresh(labels)
 //@   loop 0 invariant forall(0, len(labels), func(k int) bool { return tokType(p, old(p.pos)+1+2*k) == lexer.Ident && labels[k] == Label(tokText(p, old(p.pos)+1+2*k)) })
 //@   loop 0 invariant forall(0, len(labels), func(k int) bool { return tokType(p, old(p.pos)+2+2*k) == lexer.Comma })
+//@   loop 0 decreases remaining(p)
 
 // operand (operator operand)*: the first operand is handed to the precedence climber with the
 // lowest minimum precedence.
@@ -612,6 +620,7 @@ package logql
 //@   loop 0 invariant forall(0, len(s.Matchers), func(k int) bool { return s.Matchers[k].Value == tokText(p, old(p.pos)+3+4*k) && tokType(p, old(p.pos)+3+4*k) == lexer.String })
 //@   loop 0 invariant forall(0, len(s.Matchers), func(k int) bool { return (s.Matchers[k].Op == OpRe || s.Matchers[k].Op == OpNotRe) == (s.Matchers[k].Re != nil) })
 //@   loop 0 invariant forall(0, len(s.Matchers), func(k int) bool { return tokType(p, old(p.pos)+4+4*k) == lexer.Comma })
+//@   loop 0 decreases remaining(p)
 
 //@ func (*parser).parseLogExpr
 //@   requires p.pos >= 0
@@ -676,6 +685,7 @@ package logql
 //@       head(tokType(p, p.pos+1)) == lexer.Regexp || head(tokType(p, p.pos+1)) == lexer.Pattern || head(tokType(p, p.pos+1)) == lexer.Unpack || head(tokType(p, p.pos+1)) == lexer.LineFormat ||
 //@       head(tokType(p, p.pos+1)) == lexer.Decolorize || head(tokType(p, p.pos+1)) == lexer.Ident || head(tokType(p, p.pos+1)) == lexer.OpenParen || head(tokType(p, p.pos+1)) == lexer.LabelFormat ||
 //@       head(tokType(p, p.pos+1)) == lexer.Keep || head(tokType(p, p.pos+1)) == lexer.Drop || head(tokType(p, p.pos+1)) == lexer.Distinct
+//@   loop 0 decreases remaining(p)
 
 //@ func (*parser).parseLabelExtraction
 //@   requires p.pos >= 0
@@ -683,6 +693,7 @@ package logql
 //@   ensures p.pos >= old(p.pos)
 //@   loop 0 modifies p.pos, labels[*], exprs[*]
 //@   loop 0 invariant p.pos >= 0 && p.pos >= old(p.pos) && fresh(labels) && fresh(exprs)
+//@   loop 0 decreases remaining(p)
 
 //@ func (*parser).parseRegexpLabelParser
 //@   requires p.pos >= 0
@@ -706,6 +717,7 @@ package logql
 //@   loop 0 exit_ensures[matcher-iff-operator-follows] m_called || l_called ==> m_called == (matchOp(head(tokType(p, p.pos+1))) != 0) && head(peekTok(p)) == lexer.Ident
 //@   loop 0 body_ensures[label-or-matcher-appended-in-order] (m_called ==> len(matchers) == head(len(matchers)) + 1 && len(labels) == head(len(labels)) && same(matchers[len(matchers)-1], m_r0)) &&
 //@       (!m_called ==> l_called && len(labels) == head(len(labels)) + 1 && len(matchers) == head(len(matchers)) && labels[len(labels)-1] == l_r0)
+//@   loop 0 decreases remaining(p)
 
 //@ func (*parser).parseKeepLabelsExpr
 //@   requires p.pos >= 0
@@ -737,6 +749,7 @@ package logql
 //@   loop 0 invariant forall(0, len(df.Labels), func(k int) bool { return tokType(p, old(p.pos)+2*k) == lexer.Ident })
 //@   loop 0 invariant forall(0, len(df.Labels), func(k int) bool { return df.Labels[k] == Label(tokText(p, old(p.pos)+2*k)) })
 //@   loop 0 invariant forall(0, len(df.Labels), func(k int) bool { return tokType(p, old(p.pos)+1+2*k) == lexer.Comma })
+//@   loop 0 decreases remaining(p)
 
 //@ scope label.go
 
